@@ -1290,9 +1290,19 @@ def run_pout(case):
                     raise Violation("p:to_json_file_returns|" + region, "ak.to_json with a destination must return None", observed=repr(text)[:200])
                 with open(path, "rb") as f:
                     text = f.read().decode("utf-8", "surrogateescape")
+    except BaseException:
+        if path is not None and os.path.exists(path):
+            os.unlink(path)
+        raise
+    try:
+        return _pout_rest(case, A, P, T, V, img, expected, tags, region, lay, arr, cx, kw, lkw, path, outcome, text)
     finally:
         if path is not None and os.path.exists(path):
             os.unlink(path)
+
+
+def _pout_rest(case, A, P, T, V, img, expected, tags, region, lay, arr, cx, kw, lkw, path, outcome, text):
+    o = case["opts"]
     if img.complex and cx is None:
         tags.add("out:complex_without_strings")
         if outcome == "ok":
@@ -1340,7 +1350,10 @@ def run_pout(case):
     complex_beside_record = cx is not None and img.complex and _cx_shares_position(expected, cx)
     rkw = {"nan_string": o["nan"], "infinity_string": o["inf"], "minus_infinity_string": o["minf"], "complex_record_fields": cx,
            "initial": case["reader"]["initial"], "resize": case["reader"]["resize"]}
-    okind, back = _poutcome(lambda: A.from_json(text, **rkw))
+    # (what was written to a destination file is read back by its name)
+    okind, back = _poutcome(lambda: A.from_json(path if path is not None else text, **rkw))
+    if path is not None:
+        tags.add("p:roundtrip_through_file")
     if names_clash or complex_beside_record:
         # a user record with both field names is (documented) read as a complex number, and a complex number unified with
         # another record in one RecordArray has option-type parts ("Complex number fields must be numbers"): not judged
